@@ -3,6 +3,7 @@ package sess
 import (
 	"context"
 	"fmt"
+	"runtime/debug"
 	"sync"
 	"time"
 
@@ -188,6 +189,7 @@ func NewPGSession(env *PGEnv, clientID []byte, logger *logrus.Logger) (*PGSessio
 				// listener.go recovers a panic and closes the session; record it
 				ps.panicMu.Lock()
 				ps.Panics = append(ps.Panics, fmt.Sprint(r))
+				ps.PanicStacks = append(ps.PanicStacks, string(debug.Stack()))
 				ps.panicMu.Unlock()
 				ps.shutdown()
 			}
